@@ -406,7 +406,7 @@ def formulas(P, rep, thorough=False, rule="EXPR.models"):
                    "T_top + (x - x_top)*(T_bot - T_top)/(x_bot - x_top) with x_top/x_bot the model range clipped to the feature")
     n = 0
     for ftype, kind, name, F in model_getters(P, ("Temperature",)):
-        if name not in ("Uniform", "Adiabatic", "Linear"):
+        if name not in ("Uniform", "Adiabatic", "Linear", "Chapman"):
             continue
         inc = incoming_param(P, F, kind)
         rets = [sc(r["c"][0]) for r in F.walk() if r.get("k") == "ReturnStmt" and r.get("c")]
@@ -423,6 +423,45 @@ def formulas(P, rep, thorough=False, rule="EXPR.models"):
             else:
                 rep.violation(rule, "%s returns %s" % (F.qn, norm.render(P, X)[:60]), F.nloc(X), F.qn, norm.render(P, X)[:100], "expected this->temperature",
                               key="%s|%s" % (rule, F.qn), witness="uniform temperature 1234")
+        elif name == "Chapman":
+            # steady-state conduction with uniform heat production: T = T_top + (q/k) dz - (A/(2k)) dz^2, dz = depth - top of the model
+            # range clipped to the feature (max(feature min depth, local min depth))
+            q, kc, A = sp.symbols("q k A", positive=True)
+            z = sp.Symbol("z", real=True)
+            depth_k = [pk for pk in F.params if P.d(pk).get("n") == "depth"]
+
+            def hookc(nn):
+                if nn.get("k") == "MemberExpr" and astq.is_this_field(P, nn) and nn.get("n") in ("top_heat_flux", "thermal_conductivity", "heat_production_per_unit_volume"):
+                    return {"top_heat_flux": q, "thermal_conductivity": kc, "heat_production_per_unit_volume": A}[nn["n"]]
+                if nn.get("k") == "DeclRefExpr" and depth_k and nn.get("r") == depth_k[0]:
+                    return z
+                return None
+            try:
+                v = sp.expand(norm.Sym(P, F, inline_locals=True, hook=hookc)(X))
+                poly = sp.Poly(v, z)
+                cs_ = poly.all_coeffs()
+            except Exception as e:
+                rep.unknown(rule, "%s: value is not a polynomial in the depth (%s)" % (F.qn, e))
+                continue
+            okc = False
+            detail = str(v)[:120]
+            if poly.degree() == 2:
+                c2, c1, c0 = cs_
+                if sp.simplify(c2 + A / (2 * kc)) == 0:
+                    M = sp.simplify((c1 - q / kc) * kc / A)          # the depth at which dz = 0
+                    t = sp.Symbol("t", real=True)
+                    top = sp.simplify(v.subs(z, M))
+                    resid = sp.simplify(sp.expand(v.subs(z, M + t) - (top + (q / kc) * t - A / (2 * kc) * t ** 2)))
+                    has_clip = any(isinstance(a_, sp.Max) for a_ in sp.preorder_traversal(M)) and any("feature_min_depth" in str(s_) for s_ in M.free_symbols)
+                    top_ok = not top.has(z) and not top.has(q) and not top.has(A) and any("top_temperature" in str(s_) for s_ in top.free_symbols)
+                    okc = resid == 0 and not M.has(z) and has_clip and top_ok
+                    detail = "dz = depth - (%s); T(dz=0) = %s" % (str(M)[:80], str(top)[:60])
+            if okc:
+                rep.ok(rule, "%s = T_top + (q/k) dz - (A/(2k)) dz^2 with dz measured from the clipped top of the model range" % F.qn, F.loc, F.qn)
+            else:
+                rep.violation(rule, "%s returns %s" % (F.qn, detail), F.nloc(X), F.qn, norm.render(P, X)[:120],
+                              "expected T_top + (q_top/k)*dz - (A/(2k))*dz^2, dz = depth - max(feature min depth, local min depth)",
+                              key="%s|%s" % (rule, F.qn), witness="chapman model with heat production 1e-6 and conductivity 2.5")
         elif name == "Adiabatic":
             Tp, al, cp, g = sp.symbols("Tp alpha cp g", positive=True)
 
